@@ -167,7 +167,7 @@ func TestC19(t *testing.T) {
 	runProp(t, &propSpec{
 		id: "C19",
 		profile: &Profile{
-			Name: "C19", MinSteps: 6, MaxSteps: 36, MaxClient: 4, Odd: true, V6: true, Defects: true, Streams: true,
+			Name: "C19", MinSteps: 6, MaxSteps: 36, MaxClient: 4, Odd: true, V6: true, Defects: true, Streams: true, GenFail: true,
 			Weights: map[string]int{"Allocate": 30, "Refresh": 10, "CreatePermission": 8, "ChannelBind": 8, "Send": 3, "ChannelData": 2, "PeerData": 8, "Sleep": 8, "Binding": 10},
 		},
 		nontrivial: func(st *Stats, sc *Script) bool {
